@@ -234,3 +234,23 @@ def load_known(path: str) -> tuple[list[KnownEntry], list[str]]:
 
 def fmt_path(g: CFG, path: list[Node] | None) -> str:
     return CFG.show_path(path)
+
+
+def borrow(an: "Analysis", check_fn, wanted: dict[str, str], keep=None) -> None:
+    """Re-use obligations of another property as obligations of the current one (a clause that is a
+    necessary condition of several properties is checked under each of them).  `wanted` maps the
+    foreign obligation id to the local id; `keep(finding)` may filter findings."""
+    sub = Analysis.__new__(Analysis)
+    sub.__dict__.update(an.__dict__)
+    sub.obligations = []
+    check_fn(sub)
+    for o in sub.obligations:
+        if o.id not in wanted:
+            continue
+        new = an.ob(wanted[o.id], o.kind, f"= {o.id}: {o.rule}", o.anchors)
+        new.instances = list(o.instances)
+        new.notes = list(o.notes)
+        for f in o.findings:
+            if keep is None or keep(f):
+                f.prop, f.rule = new.prop, new.id
+                new.findings.append(f)
